@@ -1,8 +1,10 @@
-(* Tree/FilesProofsHist.v — C10 proofs: single steps and histories with C03's theorems discharged (Core_step,
-   TreeInv_step), and the refutation witnesses of the Known10 classes on the tiny table set. *)
+(* Tree/FilesProofsHist.v — C10 proofs: single steps and histories, and the refutation witnesses of the Known10 classes
+   on the tiny table set.  The two facts of C03 that are used (every operation preserves Core; every operation outside
+   C03's Known classes preserves TreeInv: Tree/InvProofs.v Core_step, TreeInv_step) are Section hypotheses here and are
+   discharged in Properties/C10.v. *)
 From Coq Require Import PeanoNat Arith Lia.
 From AV Require Import Base.Bytes Base.Outcome Hash.HashModel Tree.Heap Tree.Ops Tree.Script Tree.Serialize
-  Tree.Inv Tree.InvProofsBase Tree.InvProofsCore Tree.InvProofsTree Tree.InvProofsPrim Tree.InvProofs
+  Tree.Inv Tree.InvProofsBase Tree.InvProofsCore Tree.InvProofsTree Tree.InvProofsPrim
   Tree.Files Tree.FilesProofsBase Tree.FilesProofsProj Tree.FilesProofsFrame Tree.FilesProofsOps
   Tree.FilesProofsInv.
 Open Scope string_scope.
@@ -18,12 +20,18 @@ Variable root_attrs : list (N * cdata).
 
 Let run := run_op T tab_el tab_en check_fn LATEST root_attrs.
 
+Definition CoreStep : Prop := forall o w r w', Core w -> run o w = Val (r, w') -> Core w'.
+Definition TreeStep : Prop := forall o w r w', TreeInv w -> Known T tab_el tab_en check_fn LATEST root_attrs w o = false ->
+  run o w = Val (r, w') -> TreeInv w'.
+Hypothesis core_step : CoreStep.
+Hypothesis tree_step : TreeStep.
+
 Theorem inv_step o w r w' :
   TreeInv w -> FilesInv T w -> Pending10 w o = false -> Known10 w o = false -> Unowned w o = false ->
   run o w = Val (r, w') -> FilesInv T w'.
 Proof.
   intros TI FI HP HK HU H. pose proof TI as (C & _).
-  assert (Core w') as C' by (eapply (Core_step T tab_el tab_en check_fn LATEST root_attrs); eauto).
+  assert (Core w') as C' by (eapply core_step; eauto).
   eapply inv_step_core; eauto.
 Qed.
 
@@ -49,7 +57,7 @@ Proof.
     change (Inv.run T tab_el tab_en check_fn LATEST root_attrs o w) with (run o w) in H.
     destruct (run o w) as [[r w1]| |] eqn:Er; try discriminate.
     apply (IH w1 w'); auto.
-    + eapply (TreeInv_step T tab_el tab_en check_fn LATEST root_attrs); eauto.
+    + eapply tree_step; eauto.
     + eapply inv_step; eauto.
 Qed.
 
@@ -57,3 +65,89 @@ Lemma empty_filesinv : FilesInv T empty_world.
 Proof. intros x []. Qed.
 
 End Hist.
+
+(* ====================================================================== refutations on the tiny table set *)
+Lemma empty_core : Core empty_world.
+Proof.
+  constructor.
+  - intros i. split; [intros (n & [=])|intros H; cbn in H; lia].
+  - intros p c (n & [=] & _).
+  - intros p n [=].
+  - intros k r H. destruct k; discriminate.
+  - intros i (n & [=]).
+Qed.
+Lemma empty_treeinv : TreeInv empty_world.
+Proof.
+  split; [apply empty_core|]. split.
+  - intros c p (n & [=] & _).
+  - intros i n m [=].
+Qed.
+
+Section Witness.
+Import TinyF.
+Hypothesis core_step : CoreStep tiny tiny_el tiny_en tiny_check_fn LATEST [].
+Hypothesis tree_step : TreeStep tiny tiny_el tiny_en tiny_check_fn LATEST [].
+
+Definition runs := run_ops tiny tiny_el tiny_en tiny_check_fn LATEST [].
+Definition ok_steps := steps_ok tiny tiny_el tiny_en tiny_check_fn LATEST [].
+Definition world_after (s : list op) : world := match runs s empty_world with Val w => w | _ => empty_world end.
+
+Lemma after_inv s : ok_steps s empty_world = true -> (exists w, runs s empty_world = Val w) ->
+  TreeInv (world_after s) /\ FilesInv tiny (world_after s).
+Proof.
+  intros Hok (w & Hw). unfold world_after. rewrite Hw.
+  eapply (inv_histories tiny tiny_el tiny_en tiny_check_fn LATEST [] core_step tree_step); eauto.
+  - apply empty_treeinv.
+  - apply empty_filesinv.
+Qed.
+
+(* a state of the model violates FilesInv when the checker says so *)
+Lemma not_inv w : Core w -> (forall x, In x (w_models w) -> reach_list (fuel_of w) w (m_root x) <> None) ->
+  files_ok tiny w = false -> ~ FilesInv tiny w.
+Proof. intros C Hf Hb FI. rewrite (files_ok_complete tiny w C FI Hf) in Hb. discriminate. Qed.
+
+Definition refuted (known : world -> op -> bool) : Prop :=
+  exists w o r w', TreeInv w /\ FilesInv tiny w /\ known w o = true /\ run o w = Val (r, w') /\ ~ FilesInv tiny w'.
+
+(* s: a history of operations outside all Known / Pending classes; o: the offending operation *)
+Lemma refute (known : world -> op -> bool) s o :
+  ok_steps s empty_world = true -> (exists w, runs s empty_world = Val w) ->
+  known (world_after s) o = true ->
+  (match run o (world_after s) with
+   | Val (_, wv) => negb (files_ok tiny wv) &&
+                    forallb (fun x => match reach_list (fuel_of wv) wv (m_root x) with Some _ => true | None => false end) (w_models wv)
+   | _ => false end) = true ->
+  refuted known.
+Proof.
+  intros Hok Hrun Hk Hb. destruct (after_inv s Hok Hrun) as (TI & FI).
+  destruct (run o (world_after s)) as [[r w']| |] eqn:Er; try discriminate.
+  apply Bool.andb_true_iff in Hb as (Hb & Hf). apply Bool.negb_true_iff in Hb.
+  exists (world_after s), o, r, w'. split; [exact TI|]. split; [exact FI|]. split; [exact Hk|]. split; [exact Er|].
+  apply not_inv; auto.
+  - eapply core_step; [apply TI|exact Er].
+  - intros x Hx Hn. rewrite forallb_forall in Hf. specialize (Hf x Hx). rewrite Hn in Hf. discriminate.
+Qed.
+
+(* (i) a removed file is added again *)
+Theorem add_foreign_refuted : refuted Known_add_foreign.
+Proof.
+  apply (refute _ (base ++ [OpRemoveFile 0 1]) (OpAddToFile 7 1)); [vm_compute; reflexivity | eexists; vm_compute; reflexivity | vm_compute; reflexivity | vm_compute; reflexivity].
+Qed.
+
+(* (viii) the root loses the last file of its own set: through remove_from_file and through remove_file *)
+Theorem root_last_refuted : refuted Known_root_last.
+Proof.
+  apply (refute _ (base ++ [OpRemoveFromFile 0 0]) (OpRemoveFromFile 0 1)); [vm_compute; reflexivity | eexists; vm_compute; reflexivity | vm_compute; reflexivity | vm_compute; reflexivity].
+Qed.
+Theorem root_last_remove_file_refuted : refuted (fun w o => Known_root_last w o && match o with OpRemoveFile _ _ => true | _ => false end).
+Proof.
+  apply (refute _ (base ++ [OpRemoveFromFile 0 0]) (OpRemoveFile 0 1)); [vm_compute; reflexivity | eexists; vm_compute; reflexivity | vm_compute; reflexivity | vm_compute; reflexivity].
+Qed.
+
+(* (iv) a moved element keeps its local sets *)
+Theorem move_local_refuted : refuted Known_move_local.
+Proof.
+  apply (refute _ (split ++ [OpCreateSub 7 nELEMENTS]) (OpMove 9 5)); [vm_compute; reflexivity | eexists; vm_compute; reflexivity | vm_compute; reflexivity | vm_compute; reflexivity].
+Qed.
+
+End Witness.
